@@ -36,6 +36,8 @@ pub enum E2Cmd {
     Partition { a: usize, b: usize },
     Heal,
     Write { i: usize, key: String, value: String },
+    /// op 0 delete, 1 set_with_ttl(value), 2 delete_after_ttl
+    WriteOp { i: usize, key: String, value: String, op: u8 },
     /// undecodable bytes put on i's socket (hex)
     Garbage { to: usize, hex: String },
     /// a valid SYN from a synthetic peer; the server must answer it
@@ -280,10 +282,21 @@ struct Run {
     keep_log: bool,
     nontrivial: bool,
     gossip_cmds: HashMap<SocketAddr, usize>,
+    /// per server: (key, version) -> (value, kind) as the owner stored it; key -> latest version
+    ledger: Vec<HashMap<(String, u64), (String, u8)>>,
+    latest: Vec<HashMap<String, u64>>,
+}
+
+fn kind_of(st: &chitchat::DeletionStatus) -> u8 {
+    match st {
+        chitchat::DeletionStatus::Set => 0,
+        chitchat::DeletionStatus::Deleted(_) => 1,
+        chitchat::DeletionStatus::DeleteAfterTtl(_) => 2,
+    }
 }
 
 fn viol(step: usize, code: &str, detail: String) -> Violation {
-    let prop = if code.starts_with("C17") { "C17" } else if code.starts_with("C01") { "C01" } else { "C19" };
+    let prop = if code.starts_with("C17") { "C17" } else if code.starts_with("C01") { "C01" } else if code.starts_with("C02") { "C02" } else if code.starts_with("C03") { "C03" } else { "C19" };
     Violation { property: prop.into(), code: code.into(), step, detail, finding: String::new() }
 }
 
@@ -322,7 +335,8 @@ impl Run {
                 listen_addr: addr(i),
                 seed_nodes: cfg.seeds.iter().filter(|s| **s != i).map(|s| addr(*s).to_string()).collect(),
                 failure_detector_config: FailureDetectorConfig { dead_node_grace_period: Duration::from_millis(cfg.dead_grace_ms), ..Default::default() },
-                marked_for_deletion_grace_period: Duration::from_secs(20),
+                // no tombstone GC in E2 runs: the ledger oracles below then need no taint classification
+                marked_for_deletion_grace_period: Duration::from_secs(10_000_000),
                 catchup_callback: None,
                 extra_liveness_predicate: Some(Box::new(move |_: &NodeState| {
                     if f2.load(Ordering::SeqCst) {
@@ -334,7 +348,10 @@ impl Run {
             let handle = spawn_chitchat(config, vec![("k".into(), format!("v{i}"))], &transport).await.expect("spawn");
             srv.push(Srv { handle: Some(handle), id, panic_flag: flag, last_hb: 0, last_hb_ms: 0, excused_until_ms: 0, ended: false });
         }
-        Run { cfg, net, srv, step: 0, log: Vec::new(), keep_log, nontrivial: false, gossip_cmds: HashMap::new() }
+        {
+            let n = cfg.n;
+            Run { cfg, net, srv, step: 0, log: Vec::new(), keep_log, nontrivial: false, gossip_cmds: HashMap::new(), ledger: vec![HashMap::new(); n], latest: vec![HashMap::new(); n] }
+        }
     }
 
     fn now(&self) -> u64 {
@@ -423,6 +440,9 @@ impl Run {
                 let rounds: Vec<((SocketAddr, u64), Vec<SocketAddr>)> = std::mem::take(&mut net.syn_at).into_iter().collect();
                 for ((from, at), tos) in rounds {
                     net.stats.inc("gossip_rounds_observed");
+                    if tos.contains(&from) && self.gossip_cmds.get(&from).copied().unwrap_or(0) == 0 {
+                        return Err(viol(self.step, "C17.gossip_to_self", format!("{from} sent a SYN to its own address in the round with own heartbeat {at}")));
+                    }
                     let extra = self.gossip_cmds.get(&from).copied().unwrap_or(0);
                     if tos.len() > 5 + extra {
                         return Err(viol(self.step, "C17.too_many_syns", format!("{from} sent {} SYNs in the round with own heartbeat {at} (interval {interval}, {extra} user gossip commands)", tos.len())));
@@ -451,15 +471,8 @@ impl Run {
                 self.net.lock().unwrap().partitions.clear();
                 Ok(())
             }
-            E2Cmd::Write { i, key, value } => {
-                if let Some(h) = self.srv.get(*i).and_then(|s| if s.ended { None } else { s.handle.as_ref() }) {
-                    let r = tokio::time::timeout(Duration::from_millis(self.cfg.interval_ms * 10), h.with_chitchat(|c| c.self_node_state().set(key, value))).await;
-                    if r.is_err() {
-                        return Err(viol(self.step, "C19.deadlock", format!("with_chitchat (write) on server {i} did not return")));
-                    }
-                }
-                Ok(())
-            }
+            E2Cmd::Write { i, key, value } => self.write(*i, key, value, 9).await,
+            E2Cmd::WriteOp { i, key, value, op } => self.write(*i, key, value, *op).await,
             E2Cmd::Garbage { to, hex } => {
                 if *to < n {
                     let tx = self.net.lock().unwrap().inboxes.get(&addr(*to)).cloned();
@@ -605,7 +618,10 @@ impl Run {
                     }
                 }
             }
-            E2Cmd::Inspect => self.inspect().await,
+            E2Cmd::Inspect => {
+                self.inspect().await?;
+                self.check_copies().await
+            }
             E2Cmd::Quiesce { rounds } => {
                 {
                     let mut net = self.net.lock().unwrap();
@@ -647,6 +663,106 @@ impl Run {
                 Ok(())
             }
         }
+    }
+
+    async fn write(&mut self, i: usize, key: &str, value: &str, op: u8) -> Result<(), Violation> {
+        let Some(h) = self.srv.get(i).and_then(|s| if s.ended { None } else { s.handle.as_ref() }) else { return Ok(()) };
+        let r = tokio::time::timeout(
+            Duration::from_millis(self.cfg.interval_ms * 10 + self.excuse_budget(i)),
+            h.with_chitchat(|c| {
+                let ns = c.self_node_state();
+                match op {
+                    0 => ns.delete(key),
+                    1 => ns.set_with_ttl(key, value),
+                    2 => ns.delete_after_ttl(key),
+                    _ => ns.set(key, value),
+                }
+                ns.get_versioned(key).map(|v| (v.value.clone(), v.version, kind_of(&v.status)))
+            }),
+        )
+        .await;
+        match r {
+            Err(_) => Err(viol(self.step, "C19.deadlock", format!("with_chitchat (write) on server {i} did not return"))),
+            Ok(Some((v, ver, kind))) => {
+                self.ledger[i].insert((key.to_string(), ver), (v, kind));
+                self.latest[i].insert(key.to_string(), ver);
+                Ok(())
+            }
+            Ok(None) => Ok(()),
+        }
+    }
+
+    /// C02 / C03 at an inspection point, through the real server loops (no tombstone GC here).
+    async fn check_copies(&mut self) -> Result<(), Violation> {
+        let n = self.srv.len();
+        // copies first, owners afterwards: owners only move forward in between
+        let mut copies: Vec<Option<Vec<(usize, u64, u64, u64, Vec<(String, String, u64, u8)>)>>> = Vec::new();
+        for s in &self.srv {
+            if s.ended || s.handle.is_none() {
+                copies.push(None);
+                continue;
+            }
+            let h = s.handle.as_ref().unwrap();
+            let v = h
+                .with_chitchat(|c| {
+                    c.node_states()
+                        .iter()
+                        .filter_map(|(id, ns)| {
+                            let j: usize = id.node_id.strip_prefix('s')?.parse().ok()?;
+                            let entries = ns.key_values_including_deleted().map(|(k, v)| (k.to_string(), v.value.clone(), v.version, kind_of(&v.status))).collect();
+                            Some((j, ns.last_gc_version(), ns.max_version(), u64::from(ns.heartbeat()), entries))
+                        })
+                        .collect::<Vec<_>>()
+                })
+                .await;
+            copies.push(Some(v));
+        }
+        let mut owners: Vec<Option<(u64, u64)>> = Vec::new();
+        for s in &self.srv {
+            if s.ended || s.handle.is_none() {
+                owners.push(None);
+                continue;
+            }
+            let h = s.handle.as_ref().unwrap();
+            owners.push(Some(h.with_chitchat(|c| (c.self_node_state().max_version(), u64::from(c.self_node_state().heartbeat()))).await));
+        }
+        for (i, cs) in copies.iter().enumerate() {
+            let Some(cs) = cs else { continue };
+            for (j, gc, mv, hb, entries) in cs {
+                if *j >= n {
+                    continue;
+                }
+                // the initial key-value written by spawn_chitchat
+                let init = ("k".to_string(), 1u64);
+                for (k, v, ver, kind) in entries {
+                    let known = self.ledger[*j].get(&(k.clone(), *ver)).map(|w| &w.0 == v && w.1 == *kind).unwrap_or(false) || ((k.clone(), *ver) == init && v == &format!("v{j}") && *kind == 0);
+                    if !known {
+                        return Err(viol(self.step, "C03.invented", format!("server {i} holds s{j}:{k:?}@{ver} kind {kind} which s{j} never wrote")));
+                    }
+                }
+                if let Some((omv, ohb)) = owners[*j] {
+                    if *mv > omv || *hb > ohb {
+                        return Err(viol(self.step, "C03.ahead", format!("server {i} copy of s{j} at (max {mv}, heartbeat {hb}), owner at (max {omv}, heartbeat {ohb})")));
+                    }
+                }
+                for (k, ver) in &self.latest[*j] {
+                    if *ver > *mv {
+                        continue;
+                    }
+                    let w = &self.ledger[*j][&(k.clone(), *ver)];
+                    let have = entries.iter().find(|e| &e.0 == k);
+                    let ok = match have {
+                        Some(e) => e.2 == *ver && e.1 == w.0 && e.3 == w.1,
+                        None => w.1 != 0 && *ver <= *gc,
+                    };
+                    if !ok {
+                        return Err(viol(self.step, "C02.stale", format!("server {i} copy of s{j} at (gc {gc}, max {mv}): key {k:?} holds {:?}, owner's latest write is @{ver} kind {}", have.map(|e| (e.2, e.3)), w.1)));
+                    }
+                }
+            }
+        }
+        self.net.lock().unwrap().stats.inc("ledger_checks");
+        Ok(())
     }
 
     /// Some running server's copy of a running member it knows is behind the owner.
@@ -716,7 +832,13 @@ fn gen_cmds(seed: u64) -> (E2Cfg, Vec<E2Cmd>) {
             5 => E2Cmd::Faults { drop_pct: *r.pick(&[0u8, 10, 30]), dup_pct: *r.pick(&[0u8, 10, 30]), send_err_pct: *r.pick(&[0u8, 10, 40, 100]), max_delay_ms: *r.pick(&[1u64, 20, 400]) },
             6 => E2Cmd::Partition { a: i, b: r.usize_below(n) },
             7 => E2Cmd::Heal,
-            8 => E2Cmd::Write { i, key: format!("w{}", r.below(4)), value: format!("x{}", r.below(1000)) },
+            8 => {
+                if r.chance(0.6) {
+                    E2Cmd::Write { i, key: format!("w{}", r.below(4)), value: format!("x{}", r.below(1000)) }
+                } else {
+                    E2Cmd::WriteOp { i, key: format!("w{}", r.below(4)), value: format!("t{}", r.below(1000)), op: r.below(3) as u8 }
+                }
+            }
             9 | 10 => {
                 let bytes: Vec<u8> = match r.below(4) {
                     0 => b"junk".to_vec(),
